@@ -819,7 +819,7 @@ class TaskPool(BaseTaskPool):
                     "create coroutine: %s(*%s, **%s)",
                     str(e.__class__.__name__),
                     group_name,
-                    func.__name__,
+                    getattr(func, "__name__", type(func).__name__),
                     repr(args),
                     repr(kwargs),
                 )
@@ -1047,7 +1047,7 @@ class TaskPool(BaseTaskPool):
                     "create coroutine: %s(%s%s)",
                     str(e.__class__.__name__),
                     group_name,
-                    func.__name__,
+                    getattr(func, "__name__", type(func).__name__),
                     "*" * arg_stars,
                     str(next_arg),
                 )
@@ -1435,7 +1435,7 @@ class SimpleTaskPool(BaseTaskPool):
     @property
     def func_name(self) -> str:
         """Name of the coroutine function used in the pool."""
-        return self._func.__name__
+        return getattr(self._func, "__name__", type(self._func).__name__)
 
     async def _start_num(self, num: int, group_name: str) -> None:
         """Starts `num` new tasks in group `group_name`."""
@@ -1449,7 +1449,7 @@ class SimpleTaskPool(BaseTaskPool):
                     "create coroutine: %s(*%s, **%s)",
                     str(e.__class__.__name__),
                     str(self),
-                    self._func.__name__,
+                    getattr(self._func, "__name__", type(self._func).__name__),
                     repr(self._args),
                     repr(self._kwargs),
                 )
